@@ -748,7 +748,7 @@ func runC44(r *simkit.R) {
 func propC18() *simkit.Property {
 	return &simkit.Property{
 		ID: "C18", Level: "exploration", Bubble: true, TapeLimit: 4000,
-		Rule: "each run = a blob set produced by a real incremental history on a shard (regular objects, v1/v2 split children with parent headers, tombstones and locks with and without expirations, some objects physically collected by GC so that only reachable sets occur), flushed to blob storage; then the metabase is rebuilt with ResyncFromBlobstor on copies of the shard with the blob enumeration order permuted (all permutations when <=5 blobs, else 8 seed-chosen ones). Oracle: every address gets the same status class (available / removed / expired / not found, and locked yes/no) in every permutation, equal to the status that follows from the stored objects (tombstone in blobs => removed, unexpired lock in blobs => locked, expiration attribute => expired); afterwards GC passes reclaim the blob of every removed object. distinct = (history digest, permutation); non-trivial = >=1 permutation enumerates a tombstone or lock before its target",
+		Rule: "each run = a blob set produced by a real incremental history on a shard (regular objects, a v1 split object known through its last part's parent header, in 30% of the runs with one more part that carries no parent header, tombstones and locks with and without expirations, some objects physically collected by GC so that only reachable sets occur), flushed to blob storage; then the metabase is rebuilt with ResyncFromBlobstor on copies of the shard with the blob enumeration order permuted (all permutations when <=5 blobs, else 8 seed-chosen ones). Oracle: every address gets the same status class (available / removed / expired / not found, and locked yes/no) in every permutation, equal to the status that follows from the stored objects (tombstone in blobs => removed, unexpired lock in blobs => locked, expiration attribute => expired); afterwards GC passes reclaim the blob of every removed object. distinct = (history digest, permutation); non-trivial = >=1 permutation enumerates a tombstone or lock before its target",
 		Run:  runC18,
 		Assumptions: []string{"statuses are derived from what the blobs contain (garbage marks are not stored in blobs and are legitimately lost)"},
 		Components:  shardComponents,
@@ -777,13 +777,20 @@ func runC18(r *simkit.R) {
 	par, part := nreg+4, nreg-1
 	w.u.Specs[par] = &zz.Spec{ID: par, Cnr: 0, Kind: zz.KReg, Parent: -1, First: -1, Split: -1, Exp: -1, Size: 64, Target: -1, ECRule: -1, Virtual: true}
 	w.u.Specs[part] = &zz.Spec{ID: part, Cnr: 0, Kind: zz.KReg, Parent: par, First: -1, Split: 3, Exp: -1, Size: 12, Target: -1, ECRule: -1}
+	// in 30% of the runs the family has one more part that carries no parent header (a middle
+	// part): only the split ID it shares with the last part ties it to the parent
+	mid := -1
+	if r.Bool(30) {
+		mid = nreg - 2
+		w.u.Specs[mid] = &zz.Spec{ID: mid, Cnr: 0, Kind: zz.KReg, Parent: -1, First: -1, Split: 3, Exp: -1, Size: 20, Target: -1, ECRule: -1}
+	}
 	if r.Bool(50) {
 		// aim one tombstone / lock at the parent
 		w.u.Specs[nreg+r.Intn(4)].Target = par
 	}
 	// tombstones and locks address whole objects, never a single split part
 	for id := nreg; id < nreg+4; id++ {
-		if w.u.Specs[id].Target == part {
+		if t := w.u.Specs[id].Target; t == part || t == mid {
 			w.u.Specs[id].Target = par
 		}
 	}
@@ -899,6 +906,25 @@ func runC18(r *simkit.R) {
 		default:
 			classes = []string{"available"}
 		}
+		if id == mid && present && has[part] {
+			// the middle part shares the fate of the parent the last part ties it to
+			ptomb, plock := false, false
+			for _, b := range blobs {
+				bs := w.u.Specs[b]
+				if bs.Kind == zz.KTomb && bs.Target == par {
+					ptomb = true
+				}
+				if bs.Kind == zz.KLock && bs.Target == par && !(bs.Exp >= 0 && w.ep.e > uint64(bs.Exp)) {
+					plock = true
+				}
+			}
+			switch {
+			case ptomb && plock:
+				classes = []string{"removed", "available", "missing"}
+			case ptomb:
+				classes = []string{"removed", "missing"}
+			}
+		}
 		if id == part && present {
 			// a child may report its own or its parent's worse status
 			pc, _ := expectParent(w, blobs, par)
@@ -908,6 +934,12 @@ func runC18(r *simkit.R) {
 			}
 		}
 		return classes, lock
+	}
+	tag := func(id int) string {
+		if id == mid {
+			return " [part of a split object tied to its tombstoned parent only through the split ID it shares with the last part]"
+		}
+		return ""
 	}
 	nperm := 8
 	if len(blobs) <= 5 {
@@ -1001,7 +1033,7 @@ func runC18(r *simkit.R) {
 			}
 			if !okc {
 				w2.close()
-				r.Failf("resync", fmt.Sprintf("status after resync differs from what the blobs imply: %s instead of %s (%s)", got[id].class, strings.Join(want, "/"), w.u.Specs[id].Kind), "blob order %v: o%d (%s) is reported %s, the stored objects imply %v", order, id, w.u.Specs[id], got[id].class, want)
+				r.Failf("resync", fmt.Sprintf("status after resync differs from what the blobs imply: %s instead of %s (%s)%s", got[id].class, strings.Join(want, "/"), w.u.Specs[id].Kind, tag(id)), "blob order %v: o%d (%s) is reported %s, the stored objects imply %v", order, id, w.u.Specs[id], got[id].class, want)
 			}
 			if got[id].locked != wl && got[id].class != "missing" {
 				w2.close()
@@ -1014,13 +1046,13 @@ func runC18(r *simkit.R) {
 			for id := range w.u.IDs {
 				if got[id] != first[id] && !(unavailable(got[id].class) && unavailable(first[id].class)) {
 					w2.close()
-					r.Failf("resync", "status depends on the blob enumeration order", "o%d (%s): %+v in one order, %+v in another (order %v)", id, w.u.Specs[id], first[id], got[id], order)
+					r.Failf("resync", "status depends on the blob enumeration order"+tag(id), "o%d (%s): %+v in one order, %+v in another (order %v)", id, w.u.Specs[id], first[id], got[id], order)
 				}
 			}
 		}
 		// GC reclaims the payload of removed objects
 		w2.settle(3*cfg.gcInterval + time.Second)
-		var leak string
+		var leak, leakTag string
 		w2.exclusive("reclaim", func() {
 			for _, id := range blobs {
 				want, _ := expect(id)
@@ -1029,12 +1061,13 @@ func runC18(r *simkit.R) {
 				}
 				if inB, _ := w2.physical(id); inB {
 					leak = fmt.Sprintf("o%d (%s) is removed by a tombstone but its blob is still there after GC passes (blob order %v)", id, w.u.Specs[id], order)
+					leakTag = tag(id)
 				}
 			}
 		})
 		w2.close()
 		if leak != "" {
-			r.Failf("resync", "payload of a removed object is not reclaimed after resync", "%s", leak)
+			r.Failf("resync", "payload of a removed object is not reclaimed after resync"+leakTag, "%s", leak)
 		}
 	}
 	w.iterPerm = nil
